@@ -597,6 +597,84 @@ Proof.
     destruct atend; [now rewrite H|]. rewrite H. apply IH.
 Qed.
 
+(* ---- the index arithmetic of the source (walk_ix, with the constants the
+   translator read) against the checked walk ---- *)
+
+Lemma skip_ix_none rest : forall i t acc,
+  skip_ix None rest i t acc =
+  let '(j, acc', atend) := skip_from rest i t acc in (j, acc', if atend then SkOOB else SkStop).
+Proof.
+  induction rest as [|c rest IH]; intros i t acc; cbn; [reflexivity|].
+  destruct (t <? ri_time c)%Z; [apply IH|reflexivity].
+Qed.
+
+Lemma walk_ix_none cols runs : forall i acc, walk_ix None cols i runs acc = walk false cols i runs acc.
+Proof.
+  induction runs as [|r runs IH]; intros i acc; [reflexivity|].
+  cbn [walk_ix walk]. unfold skip_cols. rewrite skip_ix_none.
+  destruct (skip_from (skipn i cols) i (r_time r) acc) as [[j acc'] atend].
+  destruct atend; [reflexivity|]. cbn [at_end]. apply IH.
+Qed.
+
+(* end = invocations + VECTOR_LENGTH and the loop tests ri < end: no read is
+   ever attempted outside the vector, and the walk is the bounded checked walk *)
+Lemma skip_ix_exact n be rest : forall i t acc, (List.length rest + i = n)%nat ->
+  exists j acc', skip_ix (Some (mkwl (Z.of_nat n) true be)) rest i t acc = (j, acc', SkStop) /\
+    skip_from rest i t acc = (j, acc', Nat.eqb j n) /\ (j <= n)%nat.
+Proof.
+  induction rest as [|c rest IH]; intros i t acc Hn; cbn [skip_ix skip_from in_range wl_strict wl_end].
+  - cbn in Hn. subst i. rewrite Z.ltb_irrefl. exists n, acc. rewrite Nat.eqb_refl. repeat split. lia.
+  - cbn [List.length] in Hn. destruct (Z.ltb_spec (Z.of_nat i) (Z.of_nat n)) as [_|Hge]; [|lia].
+    destruct (t <? ri_time c)%Z.
+    + apply IH. lia.
+    + exists i, acc. destruct (Nat.eqb_spec i n) as [E|_]; [lia|]. repeat split. lia.
+Qed.
+
+Lemma at_end_exact n be j : (j <= n)%nat ->
+  at_end (Some (mkwl (Z.of_nat n) true be)) j = Nat.eqb j n.
+Proof.
+  intros Hj. cbn. destruct be.
+  - destruct (Z.eqb_spec (Z.of_nat j) (Z.of_nat n)); destruct (Nat.eqb_spec j n); try reflexivity; lia.
+  - destruct (Z.leb_spec (Z.of_nat n) (Z.of_nat j)); destruct (Nat.eqb_spec j n); try reflexivity; lia.
+Qed.
+
+Lemma walk_ix_exact be cols runs : forall i acc, (i <= List.length cols)%nat ->
+  walk_ix (Some (mkwl (Z.of_nat (List.length cols)) true be)) cols i runs acc = walk true cols i runs acc.
+Proof.
+  induction runs as [|r runs IH]; intros i acc Hi; [reflexivity|].
+  cbn [walk_ix walk]. unfold skip_cols.
+  destruct (skip_ix_exact (List.length cols) be (skipn i cols) i (r_time r) acc) as [j [acc' [E1 [E2 Hj]]]].
+  { rewrite skipn_length. lia. }
+  rewrite E1, E2, (at_end_exact _ _ _ Hj).
+  destruct (Nat.eqb_spec j (List.length cols)) as [E|E]; [reflexivity|]. apply IH. lia.
+Qed.
+
+(* what the theorems need of the generated constants: the source either has no
+   end pointer at all (the checked walk then reports the read) or
+   end = ri + VECTOR_LENGTH(r->invocations) and the loop tests ri < end *)
+Definition walk_params_ok : Prop :=
+  walk_is_bounded = false \/ (walk_end_extra = 0%Z /\ walk_end_strict = true).
+
+Lemma render_suite_walk : walk_params_ok -> forall q cols s,
+  render_suite q cols s = (s_name s, walk walk_is_bounded cols 0 (qs_runs q (s_runs s)) []).
+Proof.
+  intros H q cols s. unfold render_suite, walk_limit. f_equal.
+  destruct H as [Hb|[He Hs]].
+  - rewrite Hb. apply walk_ix_none.
+  - rewrite He, Hs, Z.add_0_r. destruct walk_is_bounded; [|apply walk_ix_none].
+    apply walk_ix_exact. lia.
+Qed.
+
+(* stops compiling when the bound of render_suite is off (end = ri + VECTOR_LENGTH + 1,
+   ri <= end, ...): the model then follows the source and reads outside the vector
+   on corpus/C14/03_d9_oob_one_invocation.json (HtmlTie.bound_is_tight) *)
+Lemma walk_params_sane : walk_params_ok.
+Proof. unfold walk_params_ok. first [left; reflexivity | right; split; reflexivity]. Qed.
+
+Lemma render_suite_eq q cols s :
+  render_suite q cols s = (s_name s, walk walk_is_bounded cols 0 (qs_runs q (s_runs s)) []).
+Proof. exact (render_suite_walk walk_params_sane q cols s). Qed.
+
 Lemma trim_cells_all_none (l : list cell) : (forall c, In c l -> c = None) -> trim_cells l = [].
 Proof.
   induction l as [|c l IH]; intros H; [reflexivity|]. cbn.
@@ -1041,7 +1119,7 @@ Proof.
   intros Hq H. destruct (page_shape q inp pg Hq H) as [v [vs [Hv [_ [Hp [Hs [Hc Hr]]]]]]].
   exists v, vs. repeat split; try assumption.
   intros Hd Ho S row Hin. rewrite Hr in Hin. apply in_map_iff in Hin. destruct Hin as [s [He Hin]].
-  unfold render_suite in He. injection He as <- <-.
+  rewrite render_suite_eq in He. injection He as <- <-.
   apply (Permutation_in _ (Permutation_sym (sort_suites_perm q _ Hq))) in Hin.
   apply (rows_cells q Hq v); assumption.
 Qed.
@@ -1248,7 +1326,7 @@ Proof.
   unfold run_html in H. destruct inp as [|a inp]; [discriminate|].
   destruct (parse_all q (a :: inp) _) as [st|]; [|discriminate]. injection H as <-.
   unfold render in Hin. cbn [p_rows] in Hin. apply in_map_iff in Hin. destruct Hin as [s [He _]].
-  unfold render_suite in He. rewrite Hb in He. injection He as _ <-. apply walk_bounded.
+  rewrite render_suite_eq, Hb in He. injection He as _ <-. apply walk_bounded.
 Qed.
 
 Lemma no_oob_partial q inp pg : qsorts_ok q -> run_html q inp = Some pg ->
